@@ -5,6 +5,7 @@ import (
 	"fmt"
 	"os"
 	"path/filepath"
+	"sort"
 	"strconv"
 	"strings"
 	"sync"
@@ -100,6 +101,60 @@ func c14Pick(r *core.Rng, words []string, style int) string {
 	return words[r.Intn(len(words))]
 }
 
+var c14KwOnce sync.Once
+var c14KwWords []string
+
+// c14NearKeyword: a keyword with one letter glued to its front or back
+// ("Land", "shaving", "ands"), admitted only if it is not itself a table word.
+func c14NearKeyword(r *core.Rng) string {
+	c14KwOnce.Do(func() {
+		for k, v := range keywords() {
+			if v != 'F' && len(k) >= 2 && len(k) <= 12 && !strings.ContainsAny(k, " .") && isLetter(k[0]) {
+				c14KwWords = append(c14KwWords, strings.ToLower(k))
+			}
+		}
+		sort.Strings(c14KwWords)
+	})
+	for tries := 0; tries < 16; tries++ {
+		k := c14KwWords[r.Intn(len(c14KwWords))]
+		l := string([]byte{byte('a' + r.Intn(26))})
+		var w string
+		switch r.Intn(4) {
+		case 0:
+			w = strings.ToUpper(l) + k
+		case 1:
+			w = l + k
+		case 2:
+			w = k + l
+		default:
+			w = strings.ToUpper(l) + strings.ToUpper(k)
+		}
+		if c14Admitted(w) {
+			return w
+		}
+	}
+	return "zq"
+}
+
+const c14IdentFirst = "abcdefghijklmnopqrstuvwxyzABCDEFGHIJKLMNOPQRSTUVWXYZ_"
+const c14IdentRest = "abcdefghijklmnopqrstuvwxyz0123456789_abcdefghijklmnopqrstuvwxyzABCDEFGHIJKLMNOPQRSTUVWXYZ"
+
+// c14RandomIdent: a random identifier [A-Za-z_][A-Za-z0-9_]{1,9} that is not a table word.
+func c14RandomIdent(r *core.Rng) string {
+	for tries := 0; tries < 8; tries++ {
+		n := 2 + r.Intn(9)
+		b := make([]byte, n)
+		b[0] = c14IdentFirst[r.Intn(len(c14IdentFirst))]
+		for i := 1; i < n; i++ {
+			b[i] = c14IdentRest[r.Intn(len(c14IdentRest))]
+		}
+		if c14Admitted(string(b)) {
+			return string(b)
+		}
+	}
+	return "zq_1"
+}
+
 var c14Banned map[string]bool
 var c14BanOnce sync.Once
 
@@ -131,6 +186,10 @@ var c14Shapes = []string{
 	// simple punctuated sentences
 	"W W, W W.", "W W. W W.", "W, W W W.", "W W W!", "W W W?", "W: W W", "W W; W W", "W (W W) W", "W W - W W", "W/W W", "W N, W N.", "W W N.", "N W, N W.", "W's W W", "W W: N",
 	"W, W, W", "W. W. W.", "W-W W", "W W... W", "W W (N)", "N/N/N", "N-N-N", "N:N", "W #N", "W N% W", "W & W", "W + W", "N x N",
+	// apostrophes (the single-quote reading applies) and near-keyword words: K = one letter + keyword or keyword + letter
+	"W'W N", "W'K N", "W'K W", "K N", "W K N", "N K N", "K K N", "W'W N W'W", "W's N W'W", "W'W W W'W", "W N W'W N", "W's N K", "W'K N W'W", "K's W N", "W 'W' W", "W \"W\" N", "W's \"W\" N",
+	// random identifiers
+	"N R N", "R R N", "N R N R N", "R N", "R", "R'R N", "R.R@R.R", "R, R N.",
 }
 
 func c14Instantiate(shape string, r *core.Rng, words []string) string {
@@ -145,6 +204,10 @@ func c14Instantiate(shape string, r *core.Rng, words []string) string {
 			b.WriteString(c14Pick(r, words, style))
 		case 'N':
 			b.WriteString(c14Numbers[r.Intn(len(c14Numbers))])
+		case 'K':
+			b.WriteString(c14NearKeyword(r))
+		case 'R':
+			b.WriteString(c14RandomIdent(r))
 		default:
 			b.WriteByte(shape[i])
 		}
@@ -155,7 +218,7 @@ func c14Instantiate(shape string, r *core.Rng, words []string) string {
 func c14() *core.Check {
 	return &core.Check{
 		ID: "C14",
-		Rule: "G_benign against the LIVE keyword table: word = [A-Za-z_][A-Za-z0-9_]* from a frozen list (4000 English words in three capitalisations + identifier shapes of length 1-40), also behind 28 identifier prefixes (sp_, xp_, pg_, is_, ... one family per sequence) and mixed with marker-like words (sp_password, near-keywords) that is not a key, component or dotted prefix of a key; number = [0-9]+ incl. 31/32/33-digit runs; (1) the token-class abstraction exhaustively: all 62 sequences over {n,1} of length 1-5 must be absent from the live blacklist; (2) every sequence shape over {word,number} up to length 7 joined by single spaces, 64 (thorough 16384) random instantiations each; (3) e-mail / decimal / sentence shapes (those not dropped by the one-time calibration), sampled. Oracle: IsSQLi = (false,\"\"). " +
+		Rule: "G_benign against the LIVE keyword table: word = [A-Za-z_][A-Za-z0-9_]* from a frozen list (4000 English words in three capitalisations + identifier shapes of length 1-40), also behind 28 identifier prefixes (sp_, xp_, pg_, is_, ... one family per sequence) and mixed with marker-like words (sp_password, near-keywords) that is not a key, component or dotted prefix of a key; number = [0-9]+ incl. 31/32/33-digit runs; (1) the token-class abstraction exhaustively: all 62 sequences over {n,1} of length 1-5 must be absent from the live blacklist; (2) every sequence shape over {word,number} up to length 7 joined by single spaces, 64 (thorough 16384) random instantiations each; (3) e-mail / decimal / sentence shapes incl. apostrophes, near-keyword words (one letter glued to a keyword) and random identifiers (those not dropped by the one-time calibration), sampled; (4) 24 M (thorough 300 M) inputs built from distinct random identifiers between numbers. Oracle: IsSQLi = (false,\"\"). " +
 			"Non-trivial = every instance; distinct by string. The per-context fingerprints are recorded to show that the n/1 abstraction is what the implementation produced.",
 		Exhaustive: false,
 		Plan: func(tier string, seed uint64) []core.Unit {
@@ -169,6 +232,11 @@ func c14() *core.Check {
 			// sequence shapes over {W,N} of length 1..7: 2+4+...+128 = 254 shapes
 			us = append(us, gen.RangeUnits("seqshape", 254*inst, 8192, strconv.FormatUint(inst, 10))...)
 			us = append(us, gen.RangeUnits("shape", shp, 20000, "")...)
+			rid := uint64(24000000)
+			if tier == "thorough" {
+				rid = 300000000
+			}
+			us = append(us, gen.RangeUnits("randid", rid, 100000, "")...)
 			return us
 		},
 		Gen: func(w *core.Worker, u core.Unit, emit func(core.Case)) {
@@ -199,6 +267,21 @@ func c14() *core.Check {
 						}
 					}
 					emit(core.Case{In: strings.Join(parts, " "), Kind: "seq"})
+				}
+			case "randid":
+				// bulk: millions of distinct random identifiers between numbers
+				// (a look-up that confuses a non-keyword with a keyword - e.g. by
+				// hash - shows only for a few words in a million)
+				r := core.NewRng(w.R.Seed, "c14rid", fmt.Sprint(u.Lo))
+				for i := u.Lo; i < u.Hi; i++ {
+					switch i % 3 {
+					case 0:
+						emit(core.Case{In: "1 " + c14RandomIdent(r) + " 1", Kind: "rid"})
+					case 1:
+						emit(core.Case{In: c14RandomIdent(r) + " " + c14RandomIdent(r) + " 7", Kind: "rid"})
+					default:
+						emit(core.Case{In: "3 " + c14RandomIdent(r) + " 4 " + c14RandomIdent(r) + " 5", Kind: "rid"})
+					}
 				}
 			case "shape":
 				r := core.NewRng(w.R.Seed, "c14shape", fmt.Sprint(u.Lo))
@@ -248,6 +331,10 @@ func c14() *core.Check {
 				return
 			}
 			w.Nontrivial(c.In)
+			if c.Kind == "rid" {
+				w.Count("random_identifier_cases", 1)
+				return
+			}
 			p := li.VerifSQLPassOn(c.In, sqlModes[0])
 			if c.Kind == "seq" {
 				ok := true
